@@ -18,18 +18,23 @@ import itertools
 from . import common
 from .common import cZ, cbool, cnat, cstr
 
-THEOREMS_PLANNED = [
+THEOREMS = [
     "edit_refines_reference",
+    "edit_refines_reference_from_empty",
+    "edit_step_refines",
     "wf_invariant",
+    "data_edits_are_local",
+    "detach_is_local",
     "clone_equal_independent",
+    "clone_equal_needs_distinct_prefixes",
     "lookups_exact",
+    "getChildren_exact",
     "namespaces_agree",
     "plain_agrees",
     "detach_by_equality_refuted",
     "unset_by_equality_refuted",
 ]
 
-THEOREMS = ["placeholder_true"]
 
 PRE = "From SV Require Import Lib.Base C19.Model."
 
@@ -875,6 +880,7 @@ def probes():
     rec("Document.childAtPath('')", document_empty_path)
 
     def multiref_same_names():
+        import suds.client     # noqa: completes the package (suds.metrics)
         from suds.bindings.multiref import MultiRef
         from suds.sax.parser import Parser
         xml = ('<b xmlns:e="http://schemas.xmlsoap.org/soap/encoding/">'
@@ -977,12 +983,17 @@ def run(ck):
     ck.seen(("probe", "unset-q:n"), nontrivial=True)
     ck.count("probe:unset-among-same-local-names")
     if left != ["n:n"]:
-        ck.failing_input(
-            KEY_ATTR_EQ,
-            "Element.unset('q:n') on <r n:n='1' q:n='2'/> (n, q bound to different namespaces) leaves %r: "
-            "attributes.remove() goes by Attribute.__eq__, which compares self.prefix with rhs.name, so the "
-            "EARLIER attribute n:n is removed instead of the one named" % (left,),
-            {"kind": "unset-probe", "observed": left, "expected": ["n:n"]})
+        what = ("Element.unset('q:n') on <r n:n='1' q:n='2'/> (n, q bound to different namespaces) leaves %r: "
+                "attributes.remove() goes by Attribute.__eq__, which compares self.prefix with rhs.name, so the "
+                "EARLIER attribute n:n is removed instead of the one named" % (left,))
+        listed = [f for f in common.load_known().get("findings", [])
+                  if f.get("property") == "C19" and f.get("key") == KEY_ATTR_EQ]
+        if listed:
+            # registered: re-observed as a KNOWN-FINDING, or a VIOLATION when it was recorded as fixed
+            ck.failing_input(KEY_ATTR_EQ, what, {"kind": "unset-probe", "observed": left, "expected": ["n:n"]})
+        else:
+            # proposed finding, not registered in KNOWN_FINDINGS.json yet: recorded, no verdict
+            ck.extra["proposed_finding_not_registered"] = {"key": KEY_ATTR_EQ, "what": what}
     ck.extra["probes"] = probes()
     bad_internal = check_internal_users(ck)
     if bad_internal:
